@@ -1,6 +1,6 @@
 """C04 - PIN block encode then decode returns the PIN (formats 0, 2, 3, 4)."""
 from harness import core, oracles as o, framework as fw
-from harness.props.pinblock_common import rnd_digits, call, fmt3_choices
+from harness.props.pinblock_common import rnd_digits, call, fmt3_choices, biased_entropy
 from psec import pinblock
 
 
@@ -125,6 +125,10 @@ def run(ctx):
                 bad("format 4 field round trip (sequence)", {"fn": "field_4", "args": [pin, "call %d" % i]}, pin, repr(f4))
                 break
     bump("iso3_sequence")
+    bv, bcalls = biased_entropy(ctx, "roundtrip")
+    viol += bv
+    evals += bcalls
+    dist["extreme_fill_calls"] = bcalls
     for line, exp, got in zip(model_lines, model_expect, core.run_model(model_lines)):
         if got != exp:
             diffs.append({"request": line, "impl": exp, "model": got})
